@@ -22,12 +22,33 @@ def main():
         mod.replay(args.replay)
         return 0
     chk = Check(pid, args.tier, seed)
+    # watchdog: a change to /repo may make library code (or a model evaluation) spin for ever; the check must still end with a
+    # verdict.  Budget: many times the slowest observed run (quick < 6 min, thorough < 15 min on a loaded machine).
+    import faulthandler
+    import threading
+    budget = int(os.environ.get("VERIF_BUDGET_S", "0") or 0) or (2400 if args.tier == "quick" else 10800)
+
+    def _expired():
+        try:
+            import io
+            buf = io.StringIO()
+            faulthandler.dump_traceback(file=sys.stderr, all_threads=True)
+            chk.tie_break("check-did-not-finish", {"budget_s": budget, "note": "the check was still running when its time budget ran out (a non-terminating "
+                                                    "call in /repo or in a model evaluation): stack dumped to stderr; the property is not shown to hold"})
+            rc = chk.finish()
+        finally:
+            sys.stdout.flush()
+            os._exit(1)
+    timer = threading.Timer(budget, _expired)
+    timer.daemon = True
+    timer.start()
     try:
         mod.run(chk)
     except Exception:  # the harness itself broke: report as a broken tie, never silently pass
         tb = traceback.format_exc()
         print(tb, file=sys.stderr)
         chk.tie_break("harness-exception", {"traceback": tb[-3000:]})
+    timer.cancel()
     return chk.finish()
 
 
